@@ -877,3 +877,7 @@ class ConsumerGroup(Coordinator):
         """
         yield self.shutdown_consumers()
         yield super(ConsumerGroup, self).stop(errback_result=errback_result)
+        # A rebalance which completed while the consumers were shutting down
+        # has started consumers for the new generation: we have left, so they
+        # go too
+        self.stop_consumers()
